@@ -15,6 +15,7 @@ CONSTANTS
   FIX_STALE = TRUE
   FIX_RENAMEDIR = TRUE
   FIX_SCANWATCHED = TRUE
+  FIX_RETRY = TRUE
   RECORD = TRUE
 INVARIANTS TypeOK Bounded WatchesOK EmitRow
 
